@@ -166,7 +166,7 @@ func c06Judge(c *mon.Ctx, cs *c06Case) {
 		c.Count("C06:model-declined")
 		return
 	}
-	tx := cs.Tx.Build()
+	tx := cs.Tx.BuildShared()
 	rec := &recDebugger{}
 	var libErr error
 	opts := []interpreter.ExecutionOptionFunc{
